@@ -42,12 +42,13 @@ inductive Ev where
   | shutRet (k : CallId) (r : Option Why)                -- … returned nil / its context's error
   | closeCall (k : CallId) | closeRet (k : CallId)
   | deadline (k : CallId)     -- the deadline of the context of call k has passed
-  | ctxCancel (k : CallId)    -- the context of call k is cancelled (rig a: a second shutdown signal is delivered)
+  | ctxCancel (k : CallId)    -- the context of call k is cancelled by the caller of that Shutdown
+  | sig (n : Sig) (k : CallId) -- signal n is delivered to the process hosting the proxy (rig a; k = 0: the call `run` makes)
   | cancel | runRet
   | known      -- harness marker "closing is certainly set" (not an action; ignored by the acceptor)
   | nolimit    -- configuration marker: shutdown timeout 0, the context `run` hands to Shutdown has no deadline;
                -- not an action: the execution starts from `initCfg true _`
-  | signals    -- configuration marker: ShutdownSignals configured (`initCfg _ true`)
+  | signals (l : List Sig)  -- configuration marker: ShutdownSignals = l (`initCfg _ l`); none = the empty set
   deriving DecidableEq, Repr, Inhabited
 
 def Ev.action : Ev → Option Action
@@ -59,18 +60,28 @@ def Ev.action : Ev → Option Action
   | .shutCall k nl cb => some (.shutdownCall k nl cb)
   | .shutRet k r => some (.shutdownRet k r) | .closeCall k => some (.closeCall k) | .closeRet k => some (.closeRet k)
   | .deadline k => some (.ctxExpire k) | .ctxCancel k => some (.ctxCancel k)
+  | .sig n k => some (.sig n k)
   | .cancel => some .cancel | .runRet => some .runRet
   | .known => none
   | .nolimit => none
-  | .signals => none
+  | .signals _ => none
 
 /-- markers are not actions -/
 def Ev.isMarker : Ev → Bool
-  | .known | .nolimit | .signals => true
+  | .known | .nolimit | .signals _ => true
   | _ => false
 
+/-- the configured set of shutdown signals a history names -/
+def sigSet (h : List Ev) : List Sig :=
+  h.foldr (fun e acc => match e with | .signals l => l ++ acc | _ => acc) []
+
 /-- the initial state a history is run from -/
-def startOf (h : List Ev) : State := initCfg (h.contains .nolimit) (h.contains .signals)
+def startOf (h : List Ev) : State := initCfg (h.contains .nolimit) (sigSet h)
+
+/-- the event is the delivery of a signal that cancels run's context under the configuration `cfg` -/
+def isCfgSig (cfg : List Sig) : Ev → Bool
+  | .sig n _ => cfg.contains n
+  | _ => false
 
 /-- the visible part of an action -/
 def visible : Action → Option Ev
@@ -82,6 +93,7 @@ def visible : Action → Option Ev
   | .shutdownCall k nl cb => some (.shutCall k nl cb)
   | .shutdownRet k r => some (.shutRet k r) | .closeCall k => some (.closeCall k) | .closeRet k => some (.closeRet k)
   | .ctxExpire k => some (.deadline k) | .ctxCancel k => some (.ctxCancel k)
+  | .sig n k => some (.sig n k)
   | .cancel => some .cancel | .runRet => some .runRet
   | _ => none
 
@@ -461,8 +473,9 @@ partial def enumCalls (h : Array Ev) (conns : List ConnId) (calls : List CallInf
     in an order that finds ordinary schedules early -/
 def plansRun (h : Array Ev) (xc : Nat) : List Plan := Id.run do
   let n := h.size
-  -- first gap after run's context was done (deadline passed / second signal)
-  let dl := (findIdx h (fun e => e == .deadline 0 || e == .ctxCancel 0)).map (· + 1)
+  -- first gap after run's context was done (deadline passed / a signal of the configured set delivered)
+  let cfg := sigSet h.toList
+  let dl := (findIdx h (fun e => e == .deadline 0 || isCfgSig cfg e)).map (· + 1)
   let xr := (findIdx h (· == .runRet)).getD n
   let mut out : List Plan := []
   for p in range (xc + 1) xr do
@@ -558,7 +571,10 @@ def clauses (h : Array Ev) : List Fail := Id.run do
   let known := posOf h (· == .known)
   let isShutCall : Ev → Bool := fun e => match e with | .shutCall .. => true | _ => false
   let isCloseCall : Ev → Bool := fun e => match e with | .closeCall _ => true | _ => false
-  let isCtxDone : Ev → Bool := fun e => match e with | .deadline _ | .ctxCancel _ => true | _ => false
+  -- a context is done: its deadline passed, its caller cancelled it, or (run's) a signal of the CONFIGURED set
+  -- was delivered — a signal outside that set ends nothing
+  let cfg := sigSet h.toList
+  let isCtxDone : Ev → Bool := fun e => match e with | .deadline _ | .ctxCancel _ => true | e => isCfgSig cfg e
   -- the first call of anything
   let begun := posOf h (fun e => isShutCall e || isCloseCall e || e == .cancel)
   -- every return of nil by a call of Shutdown
@@ -718,7 +734,8 @@ def parseEv (s : String) : Option Ev :=
   | ["XR"] => some .runRet
   | ["K"] => some .known
   | ["NL"] => some .nolimit
-  | ["SG"] => some .signals
+  | ["G", n] => do some (.sig (← n.toNat?) 0)
+  | "SG" :: l => do some (.signals (← l.mapM String.toNat?))
   | _ => none
 
 def parseHistory (s : String) : Option (List Ev) := (Wire.splitList s).mapM parseEv
